@@ -220,9 +220,9 @@ example : render [123, 62, 54, 125, 65] [.sint 32 (-5)] = .ok [32, 32, 32, 32, 4
 example : render [123, 48, 56, 35, 120, 125] [.uint 32 255] = .ok [48, 120, 48, 48, 48, 48, 102, 102] := by decide +kernel
 example : render [123, 38, 50, 125, 123, 125] [.str [97], .str [98]] = .ok [98, 97] := by decide +kernel
 /-- wide text: "{>4}" of u"é" is two pad characters and the two UTF-8 bytes; a lone surrogate is `unicode_error` -/
-example : render [123, 62, 52, 125] [.wide .utf16 [0xE9]] = .ok [32, 32, 0xC3, 0xA9] := by decide +kernel
-example : render [123, 125] [.wide .utf32 [0x110000]] = .throw .unicodeError := by decide +kernel
-example : (Arg.wide .utf32 [0x1F600, 0x110000]).InRange := by
+example : render [123, 62, 52, 125] [.wide .utf16 .checkValidity [0xE9]] = .ok [32, 32, 0xC3, 0xA9] := by decide +kernel
+example : render [123, 125] [.wide .utf32 .checkValidity [0x110000]] = .throw .unicodeError := by decide +kernel
+example : (Arg.wide .utf32 .checkValidity [0x1F600, 0x110000]).InRange := by
   refine ⟨Or.inr ⟨rfl, ?_⟩, by decide⟩
   intro x hx; simp at hx; omega
 
